@@ -357,3 +357,28 @@ Theorem C04g_example_basepart :
        Some [2] /\ (do p <- M_BasePartition_new 3; M_BasePartition_pick_element p 0) = None.
 Proof. exact g_example_basepart. Qed.
 Print Assumptions C04g_example_basepart.
+
+Theorem C04g_fmt_block :
+  forall els f : list N,
+       BasePartition_fmt_loop2 els f =
+       Some (LoopDone (f ++ flat_map (fun x : N => 32 :: i32_to_string (Z.of_N x)) els)).
+Proof. exact g_fmt_block. Qed.
+Print Assumptions C04g_fmt_block.
+
+Theorem C04g_fmt_blocks :
+  forall (n : nat) (p : BasePartition) (l f : list N),
+       bp_wf n (convbp p) ->
+       N.of_nat n < 4294967296 ->
+       (forall i : N, In i l -> (1 <= N.to_nat i < nblk (convbp p))%nat) ->
+       exists out : list N, BasePartition_fmt_loop1 l p f = Some (LoopDone (f ++ out)).
+Proof. exact g_fmt_blocks. Qed.
+Print Assumptions C04g_fmt_blocks.
+
+Theorem C04g_fmt_total :
+  forall (n : nat) (p : BasePartition) (f : list N),
+       bp_wf n (convbp p) ->
+       N.of_nat n < 4294967296 ->
+       N.of_nat (length (BasePartition_block p)) < 4294967296 ->
+       exists out : list N, M_BasePartition_fmt p f = Some (f ++ out, Ok tt).
+Proof. exact g_fmt_total. Qed.
+Print Assumptions C04g_fmt_total.
